@@ -5,8 +5,8 @@ import (
 	"encoding/binary"
 	"fmt"
 	"go/types"
-	"sort"
 	"os"
+	"sort"
 	"strconv"
 	"strings"
 	"sync"
@@ -1039,7 +1039,7 @@ func (p *Path) bufOf(ptr *Value) *bufState {
 
 func nativeImplements(p *Path, nat *Native, dyn types.Type, it *types.Interface) bool {
 	switch nat.Kind {
-	case "opaque", "kyber:suite", "kyber:group", "kyber:point", "kyber:scalar", "kyber:sigscheme", "zzstream":
+	case "opaque", "kyber:suite", "kyber:group", "kyber:point", "kyber:scalar", "kyber:sigscheme", "zzstream", "reflect:type":
 		return true
 	case "error":
 		eo := nat.Data.(*ErrObj)
@@ -1154,6 +1154,10 @@ func (p *Path) nativeMethod(bn *boundNative, args []Value) Value {
 		return p.kyberMethod(nat, name, args, sig)
 	case "zzstream":
 		return nil
+	case "reflect:type":
+		if name == "String" || name == "Name" {
+			return StrC(nat.Data.(string))
+		}
 	}
 	p.unsupported("native method %s.%s", nat.Kind, name)
 	return nil
@@ -1333,4 +1337,21 @@ func init() {
 func init() {
 	reg("sync/atomic.LoadPointer", func(p *Path, fn *ssa.Function, a []Value) Value { return *(a[0].(*Value)) })
 	reg("sync/atomic.StorePointer", func(p *Path, fn *ssa.Function, a []Value) Value { *(a[0].(*Value)) = a[1]; return nil })
+}
+
+func init() {
+	reg("(*sync.RWMutex).TryLock", func(p *Path, fn *ssa.Function, a []Value) Value { return BoolC(p.mutexTryLock(a[0].(*Value))) })
+	reg("(*sync.RWMutex).TryRLock", func(p *Path, fn *ssa.Function, a []Value) Value {
+		m := p.mutex(a[0].(*Value))
+		if m.locked {
+			return FalseT
+		}
+		m.readers++
+		m.rowners[p.sched.cur]++
+		return TrueT
+	})
+	reg("(*sync.RWMutex).RLocker", func(p *Path, fn *ssa.Function, a []Value) Value {
+		p.unsupported("RWMutex.RLocker")
+		return nil
+	})
 }
